@@ -55,13 +55,14 @@ class _MathShim(types.ModuleType):
     def __init__(self):
         super().__init__("math")
         self.__dict__.update(_math.__dict__)
+        self.__dict__["pow"] = self._pow
 
     @staticmethod
-    def pow(x, y):
+    def _pow(x, y):
         if isinstance(y, (SymReal, SymInt)):
             raise HarnessError("symbolic exponent in math.pow")
         if isinstance(x, SymReal):
-            return core.sym_pow(x, y)
+            return core.sym_pow(x, y, ValueError)
         return _math.pow(x, y)
 
 
